@@ -265,8 +265,8 @@ def sigFromPy(pobj):
     elif isinstance(pobj, bool):
         return 'b'
     elif isinstance(pobj, int):
-        return 'i'
-    elif isinstance(pobj, int):
+        if -2**31 <= pobj < 2**31:
+            return 'i'
         return 'x'
     elif isinstance(pobj, float):
         return 'd'
